@@ -7,6 +7,7 @@ import struct
 from hypothesis import strategies as st
 
 from hv.builders import hyperv as bh
+from hv.core import track as core_track
 from hv.core import Outcome, lib
 
 ID = "C17"
